@@ -1,14 +1,10 @@
-"""xtuml/consistency_check.py -> lean/Gen/CheckCond.lean  (C11)
-
-A tiny Python-expression → Lean translator for the three DECISIONS of the consistency check, read with `ast`
-from the source text (the repository is never imported):
-
-  * check_link_integrity:         the `if` condition over `len(q_set)`, `link.conditional`, `link.many`
-  * check_uniqueness_constraint:  the null test   `isnull = value is None ; isnull |= (ty.upper() == 'UNIQUE_ID' and not value)`
-  * __main__:                     the exit status `sys.exit(num_errors > 0)`, and in `main` the two
-                                  `if not opts.rel_ids:` / `if not opts.kinds:` fall-backs
-  * the same two of bridgepoint/consistency_check.py, and for BOTH tools the accumulation tail of `main`
-    (everything between `error = 0` and `return error`) as a list of four possible statements (IR `MainStmt`)
+"""xtuml/consistency_check.py + bridgepoint/consistency_check.py -> lean/Gen/CheckCond.lean:
+A tiny Python-expression → Lean translator, reading the source text with `ast` (the repository is never imported), for the
+DECISIONS of the consistency check — the counting condition of check_link_integrity over `len(q_set)`, `link.conditional`,
+`link.many`; the null test of check_uniqueness_constraint (`isnull = value is None; isnull |= (ty.upper() == 'UNIQUE_ID' and
+not value)`); the exit status `sys.exit(num_errors > 0)` of BOTH command-line tools — and for the accumulation tail of `main`
+of BOTH tools (everything between `error = 0` and `return error`) as a list of four possible statements (IR `MainStmt`);
+one definition per function is demanded and nothing but the two creating bindings may touch opts / args / m before the checks.
 
 Each is emitted as a Lean function by structural translation of the expression tree
 (and / or / not / comparisons / integer literals / the named atoms); an expression outside that fragment,
